@@ -1,6 +1,6 @@
 use std::sync::{Arc, Mutex};
 
-use encoding_rs::UTF_8;
+use encoding_rs::{CoderResult, UTF_8};
 
 use crate::parser::Parser;
 use crate::parser_listener::ParserListener;
@@ -10,8 +10,8 @@ where
     T: ParserListener + Send + 'a,
 {
     parser: Parser<'a, T>,
-    utf8_decoder: &'static encoding_rs::Encoding,
-    incomplete: Vec<u8>, // Only need to store incomplete UTF-8 sequences
+    // Streaming decoder: holds an incomplete trailing UTF-8 sequence between feeds
+    utf8_decoder: encoding_rs::Decoder,
 }
 
 impl<'a, T> ByteParser<'a, T>
@@ -21,8 +21,7 @@ where
     pub fn new(listener: Arc<Mutex<T>>) -> Self {
         Self {
             parser: Parser::new(listener),
-            utf8_decoder: UTF_8,
-            incomplete: Vec::new(),
+            utf8_decoder: UTF_8.new_decoder_without_bom_handling(),
         }
     }
 
@@ -30,22 +29,22 @@ where
         let use_utf8 = self.parser.parser_state.lock().unwrap().use_utf8;
 
         let data_str = if use_utf8 {
-            // Handle incomplete UTF-8 sequences from previous feed
-            let mut bytes = Vec::new();
-            bytes.extend_from_slice(&self.incomplete);
-            bytes.extend_from_slice(data);
-
-            // Decode UTF-8 with replacement characters for invalid sequences
-            let (cow, _had_errors) = self.utf8_decoder.decode_with_bom_removal(&bytes);
-
-            // Store any incomplete UTF-8 sequence for next time
-            if let Some(last_valid) = cow.len().checked_sub(1) {
-                self.incomplete = bytes[last_valid..].to_vec();
-            } else {
-                self.incomplete.clear();
+            // Decode UTF-8 with replacement characters for invalid sequences; an
+            // incomplete trailing sequence stays in the decoder for the next feed
+            let mut out = String::with_capacity(data.len() + 8);
+            let mut read = 0;
+            loop {
+                let (result, n, _had_errors) =
+                    self.utf8_decoder
+                        .decode_to_string(&data[read..], &mut out, false);
+                read += n;
+                match result {
+                    CoderResult::InputEmpty => break,
+                    CoderResult::OutputFull => out.reserve(data.len() - read + 8),
+                }
             }
 
-            cow.into_owned()
+            out
         } else {
             // Convert bytes directly to chars when not using UTF-8
             data.iter().map(|&b| b as char).collect::<String>()
@@ -58,7 +57,7 @@ where
         match code {
             "@" => {
                 self.parser.set_use_utf8(false);
-                self.incomplete.clear();
+                self.utf8_decoder = UTF_8.new_decoder_without_bom_handling();
             }
             "G" | "8" => {
                 self.parser.set_use_utf8(true);
